@@ -6,6 +6,10 @@ ids = [json.loads(l)["id"] for l in open(os.path.join(VERIF, "properties.jsonl")
 HOOK_COMMITS = ["424bc8f"]
 
 CLAIMED = {
+ "C07": dict(category="proof", design="DESIGN.md §6 C07",
+   text="Coq theorems for batches of any length (0 and 1 included), mixed sizes and phases: the aggregated multiscalar check of batch_verify (G/H scalars accumulated at offsets 2+i and 2+max+i, tails appended per instance) equals the alpha-weighted sum of the instances' own combined checks (C07_batch_is_weighted_sum, by induction over the instance list with the offset arithmetic proved); if every instance's check vanishes the batch accepts for all weights (C07_if); if the batch accepts under two weight vectors differing only at position j then instance j's check vanishes, i.e. with an invalid member at most ONE value of alpha_j is accepted, covering residuals that cancel under equal weights (C07_only_if_exact); the batch returns the first instance's error exactly when that instance alone returns it (C07_errors). Correspondence K10: real batch_verify with a replayed RNG against the model under the same weights; search compares with the conjunction of individual real verdicts incl. +d/-d pairs.",
+   note="Trusted: Coq kernel; model tie (K10, K4); field/module laws. The 1/|F| probability is stated in its deterministic form.",
+   technique="machine-checked proof in Coq (induction over instances; offset arithmetic; vector-space cancellation) + differential correspondence with replayed weights"),
  "C06": dict(category="proof", design="DESIGN.md §6 C06",
    text="Coq theorems over operation histories: the transcript a verifier run ends with is the literal schedule (m, A_I1, A_O1, S1, phase separator, only user data/challenge requests from closures, A_I2, A_O2, S2, y, z, T_1..T_6, u, x, t_x, t_x_blinding, e_blinding, w, ipp separator, n', then L_j, R_j, u_j per round) and every challenge is the oracle's value on the prefix ending with its request (C06_verifier_follows_schedule, all programs, all proofs); on an honest run the prover's transcript is the same list, challenges coincide and follow-up challenges on the returned transcripts agree (C06_roles_in_sync_and_prover_follows_schedule); the op lists determine every absorbed object (C06_unambiguous). Correspondence K6: the instrumented Merlin log of every prover/verifier run is compared operation by operation (kind, label, payload) with the model's transcript.",
    note="Trusted: Coq kernel; RO idealisation of Merlin/STROBE/ChaCha/rand; instrumented Merlin copy (add-only logging); payload byte encodings are arkworks'.",
